@@ -34,6 +34,8 @@ def steadyFamilies : List String := [
   "signal.converter_floor_linear_sinc_mul_hz", "signal.rms_and_detect_envelope", "signal.windower_hann_rectangle",
   "signal.composition_fork_add_delay_clip_buffered",
   "bus.lockstep_three_outputs_after_warmup",
+  "bus.single_output_only_ever", "bus.one_output_left_after_the_others_were_dropped",
+  "bus.output_attached_late_then_lockstep_two_outputs",
   "graph.process_again_same_size_stock_nodes",
   "graph.wide_mixer_hundreds_of_inputs_again", "graph.dense_dag_96_nodes_again",
   "graph.nested_graph_node_with_wired_inputs_again",
